@@ -7,6 +7,7 @@ import (
 	"sync"
 	"sync/atomic"
 	"testing"
+	"time"
 
 	commontypes "github.com/smartcontractkit/libocr/commontypes"
 	"github.com/smartcontractkit/libocr/offchainreporting2plus/ocr3types"
@@ -22,15 +23,21 @@ import (
 // site is a named call site of a fake provider: it counts calls and panics on call number `at`
 // (1-based) when armed.
 type site struct {
-	calls atomic.Int32
-	at    atomic.Int32
-	fired atomic.Int32
+	calls   atomic.Int32
+	at      atomic.Int32
+	fired   atomic.Int32
+	firedAt atomic.Int64 // virtual time (UnixNano) of the injected panic
+	nextAt  atomic.Int64 // virtual time of the first call after the panic
 }
 
 func (s *site) hit(name string) {
 	n := s.calls.Add(1)
+	if s.fired.Load() > 0 && s.nextAt.Load() == 0 {
+		s.nextAt.CompareAndSwap(0, time.Now().UnixNano())
+	}
 	if a := s.at.Load(); a != 0 && n == a {
 		s.fired.Add(1)
+		s.firedAt.Store(time.Now().UnixNano())
 		panic("injected panic in " + name)
 	}
 }
@@ -109,10 +116,22 @@ func (f *pGetter) GetActiveUpkeeps(context.Context) ([]common.UpkeepPayload, err
 	return nil, nil
 }
 
-type pRunnable struct{ s *sites }
+type pRunnable struct {
+	s     *sites
+	delay time.Duration // virtual time one pipeline run takes
+	inRun atomic.Int32
+}
 
-func (f *pRunnable) CheckUpkeeps(_ context.Context, ps ...common.UpkeepPayload) ([]common.CheckResult, error) {
+func (f *pRunnable) CheckUpkeeps(ctx context.Context, ps ...common.UpkeepPayload) ([]common.CheckResult, error) {
 	f.s.runnable.hit("Runnable.CheckUpkeeps (check pipeline)")
+	if f.delay > 0 {
+		f.inRun.Add(1)
+		select {
+		case <-time.After(f.delay):
+		case <-ctx.Done():
+		}
+		f.inRun.Add(-1)
+	}
 	out := make([]common.CheckResult, len(ps))
 	for i, p := range ps {
 		// ineligible results go to the ineligible post-processor, which calls the state updater
@@ -128,17 +147,50 @@ func (f *pUpdater) SetUpkeepState(context.Context, common.CheckResult, common.Up
 	return nil
 }
 
+// pBlocks counts live subscriptions (NewMetadataStore subscribes, metadataStore.Close unsubscribes)
+type pBlocks struct {
+	mu   sync.Mutex
+	next int
+	subs map[int]chan common.BlockHistory
+}
+
+func (f *pBlocks) Subscribe() (int, chan common.BlockHistory, error) {
+	f.mu.Lock()
+	defer f.mu.Unlock()
+	if f.subs == nil {
+		f.subs = map[int]chan common.BlockHistory{}
+	}
+	f.next++
+	ch := make(chan common.BlockHistory, 8)
+	f.subs[f.next] = ch
+	return f.next, ch, nil
+}
+func (f *pBlocks) Unsubscribe(id int) error {
+	f.mu.Lock()
+	defer f.mu.Unlock()
+	delete(f.subs, id)
+	return nil
+}
+func (f *pBlocks) Start(context.Context) error { return nil }
+func (f *pBlocks) Close() error                { return nil }
+func (f *pBlocks) live() int {
+	f.mu.Lock()
+	defer f.mu.Unlock()
+	return len(f.subs)
+}
+
 type node18 struct {
 	Plugin ocr3types.ReportingPlugin[plugin.AutomationReportInfo]
 	S      *sites
-	Blocks *FakeBlocks
+	Blocks *pBlocks
+	Run    *pRunnable
 }
 
-func newNode18(t *testing.T) *node18 {
+func newNode18(t *testing.T, runDelay time.Duration) *node18 {
 	s := &sites{}
-	nd := &node18{S: s, Blocks: NewFakeBlocks()}
+	nd := &node18{S: s, Blocks: &pBlocks{}, Run: &pRunnable{s: s, delay: runDelay}}
 	fac := plugin.NewReportingPluginFactory(
-		&pLogs{s: s}, &pEvents{s}, nd.Blocks, &pRecov{s}, &pBuilder{s}, &pGetter{s}, &pRunnable{s},
+		&pLogs{s: s}, &pEvents{s}, nd.Blocks, &pRecov{s}, &pBuilder{s}, &pGetter{s}, nd.Run,
 		runner.RunnerConfig{Workers: 4, WorkerQueueLength: 100, CacheExpire: 20 * 60e9, CacheClean: 30e9},
 		&RecEncoder{}, simutil.GetUpkeepType, simutil.UpkeepWorkID, &pUpdater{s}, log.New(io.Discard, "", 0),
 	)
